@@ -149,8 +149,15 @@ func (x *world7) bad(p *nodesim.Proposal, good *lib.QuorumCertificate, vs lib.Va
 			if e != nil {
 				x.fatalf("committee: %v", e)
 			}
+			// the weakest member alone; if even that is a quorum there is no genuine partial certificate: garble instead
+			weakest := len(lvs.ValidatorSet.ValidatorSet) - 1
+			if _, thr, sp := nodesim.Power(lvs, []int{weakest}); sp.Cmp(thr) >= 0 {
+				last.Signature.Signature = flip(last.Signature.Signature)
+				kind = "lastqc-sig"
+				break
+			}
 			last.Signature = nil
-			sig, err := nodesim.Aggregate(last.SignBytes(), lvs, x.ring, []int{0})
+			sig, err := nodesim.Aggregate(last.SignBytes(), lvs, x.ring, []int{weakest})
 			if err != nil {
 				x.fatalf("aggregate: %v", err)
 			}
